@@ -23,7 +23,7 @@ META = {
     "another lambda or a line break",
     "assumptions": ["sources live in files; CPython 3.12 tokenizer", "bodies contain no captures or helper calls (C04/C05)"],
     "floor_evaluations": {"quick": 2000, "thorough": 50000},
-    "floor_nontrivial": {"quick": 800, "thorough": 20000},
+    "floor_nontrivial": {"quick": 800, "thorough": 2500},
     "anchors": ["func_adl/util_ast.py", "func_adl/object_stream.py"],
 }
 
